@@ -85,6 +85,8 @@ def config(prop, seed, tier):
             cfg["initial"] = ["SC"] * r.choice([1, 1, 2])
             with_faults(cfg, r, 0.5)
             cfg["prov_kinds"] = ["SC"]
+            if r.random() < 0.08:
+                cfg["profile"] = "large"  # size thresholds: simplices with a thousand faces
         else:
             cfg["initial"] = [r.choice(["H", "H", "DH", "SC"]) for _ in range(r.choice([1, 2]))]
             with_faults(cfg, r, 0.4)
